@@ -219,6 +219,21 @@ func (f *fakeRouter) serve() {
 				f.c.Violf("client sent ERROR %s for request %d which the router never issued", x.Error, x.Request)
 			}
 		case *wamp.Goodbye:
+			if f.hostile && f.g.Chance(1, 3) {
+				// a router that does not answer GOODBYE (in time, or at all) and goes on sending:
+				// an invocation for a registration the client never made, an event, a late GOODBYE
+				f.c.Fault("router_ignores_goodbye")
+				d := []time.Duration{0, f.rto / 2, f.rto, 2*f.rto - time.Millisecond, 2 * f.rto, 2*f.rto + time.Millisecond, 3 * f.rto}[f.g.Intn(7)]
+				switch f.g.Intn(4) {
+				case 0:
+					f.send(&wamp.Invocation{Request: wamp.ID(900000 + f.g.Intn(100)), Registration: 987654, Details: wamp.Dict{}, Arguments: wamp.List{"late"}}, d)
+				case 1:
+					f.send(&wamp.Event{Subscription: 987654, Publication: 1, Details: wamp.Dict{}, Arguments: wamp.List{"late"}}, d)
+				case 2:
+					f.send(&wamp.Goodbye{Reason: wamp.CloseGoodbyeAndOut, Details: wamp.Dict{}}, d)
+				}
+				break
+			}
 			f.send(&wamp.Goodbye{Reason: wamp.CloseGoodbyeAndOut, Details: wamp.Dict{}}, 0)
 		}
 	}
@@ -633,6 +648,23 @@ func runClient(c *Ctx, hostile bool) {
 	} else {
 		_ = closeErr
 		c.Probe("close_returned")
+		// "after which no goroutine or handler of the client remains", Done() signalled: now, not
+		// once the router side gives up too
+		simrt.WaitQuiescent("closed-now")
+		select {
+		case <-cl.Done():
+		default:
+			c.Violf("Close() returned but Done() is not signalled (router side: %q)", f.closedBy)
+		}
+		var leftNow []string
+		for _, l := range c.S.Live() {
+			if strings.Contains(l, "(client.go:") {
+				leftNow = append(leftNow, l)
+			}
+		}
+		if len(leftNow) > 0 {
+			c.Violf("goroutines of the client remain when Close() has returned: %s", strings.Join(leftNow, "; "))
+		}
 		if c.S.Elapsed()-t0 > 4*rto+time.Second {
 			c.Probe("close_slow")
 		}
